@@ -473,8 +473,8 @@ impl Check for C10 {
     }
     fn default_runs(&self, tier: Tier) -> u64 {
         match tier {
-            Tier::Quick => 1200,
-            Tier::Thorough => 60000,
+            Tier::Quick => 6000,
+            Tier::Thorough => 400000,
         }
     }
     fn gen(&self, seed: u64, family: &str, tier: Tier) -> Case {
